@@ -1125,8 +1125,9 @@ class SubsetSegment(DataSegment):
                 logger.info('Entry at index {} of subset definition yields a single entry'.format(index))
                 original_indices.append(-1)
             else:
+                # the index of this dimension in the (possibly squeezed) subset coordinates
+                original_indices.append(len(formatted_shape))
                 formatted_shape.append(this_size)
-                original_indices.append(index)
 
         self._formatted_subset_definition = form_def
         self._raw_subset_definition = raw_def
@@ -1138,8 +1139,9 @@ class SubsetSegment(DataSegment):
                 logger.info('Raw slice at index {} of subset definition yields a single entry'.format(index))
                 raw_indices.append(-1)
             else:
+                # the index of this dimension in the (possibly squeezed) subset coordinates
+                raw_indices.append(len(raw_shape))
                 raw_shape.append(this_size)
-                raw_indices.append(index)
         self._original_raw_indices = tuple(raw_indices)
         return tuple(raw_shape), tuple(formatted_shape)
 
